@@ -58,6 +58,8 @@ def run_case(seed, tier, rec, st):
         module_name_case(rng, tier, rec, st)
     elif x < 0.07:
         foreign_default_case(rng, tier, rec, st)
+    elif x < 0.09:
+        nested_specialisations_case(rng, tier, rec, st)
     elif x < 0.08:
         passthrough_union_case(rng, tier, rec, st)
     elif x < 0.55:
@@ -163,7 +165,13 @@ def module_name_case(rng, tier, rec, st):
     import keyword
     from mashumaro.core.meta.code import builder as _b
     lib = sorted(k for k in vars(_b) if not k.startswith("__") and k.isidentifier() and not keyword.iskeyword(k))
-    name = rng.choice(lib) if rng.random() < 0.5 else rng.choice(PLAUSIBLE_MODULE_NAMES)
+    for name in rng.sample(lib, 2) + rng.sample(PLAUSIBLE_MODULE_NAMES, 7):
+        _module_name_trial(name, lib, rec, st)
+
+
+def _module_name_trial(name, lib, rec, st):
+    import sys
+    import types
     saved = sys.modules.get(name)
     m = types.ModuleType(name)
     sys.modules[name] = m
@@ -217,6 +225,47 @@ def module_name_case(rng, tier, rec, st):
         # the functions generated here are judged by what they did above, not by the closure walk of a later case
         for i in st["gen"].functions:
             st["walked"].add(i)
+
+
+def nested_specialisations_case(rng, tier, rec, st):
+    """one specialisation of a generic dataclass met WHILE another specialisation of the same class is being compiled
+    (Page[Post], where the plain class Post holds a Page[Tag]): every specialisation gets its own compiled method."""
+    from mashumaro.codecs.basic import BasicDecoder, BasicEncoder
+    fam = Family("c17", future_annotations=rng.random() < 0.2)
+    try:
+        gmix = "DataClassDictMixin, " if rng.random() < 0.3 else ""
+        pmix = "(DataClassDictMixin)" if rng.random() < 0.3 else ""
+        lazy = "    class Config(BaseConfig):\n        lazy_compilation = True\n" if rng.random() < 0.3 else ""
+        fam.exec_src("T = TypeVar('T')\n"
+                     f"@dataclass\nclass Page({gmix}Generic[T]):\n    items: List[T] = field(default_factory=list)\n    first: Optional[T] = None\n"
+                     "@dataclass\nclass Tag:\n    name: str = ''\n    since: Optional[datetime.date] = None\n"
+                     f"@dataclass\nclass Post{pmix}:\n    title: str = ''\n    tags: Page[Tag] = field(default_factory=Page)\n    more: Optional[Page[datetime.date]] = None\n"
+                     f"@dataclass\nclass Blog(DataClassDictMixin):\n    posts: Page[Post] = field(default_factory=Page)\n    drafts: Dict[str, Page[Post]] = field(default_factory=dict)\n" + lazy)
+        m = fam.module
+        import datetime
+        tag = m.Tag("t", datetime.date(2020, 1, 2))
+        post = m.Post("p", m.Page([tag], tag), m.Page([datetime.date(2021, 2, 3)], None))
+        blog = m.Blog(m.Page([post], post), {"d": m.Page([post], None)})
+        ctx = {"source": "".join(fam.sources[1:])}
+        facts = {"scenario": "nested-specialisations", "monitor": "nested-specialisations"}
+        routes = [("mixin", lambda: m.Blog.from_dict(blog.to_dict())), ("codec", lambda: BasicDecoder(m.Blog).decode(BasicEncoder(m.Blog).encode(blog))),
+                  ("codec-of-the-specialisation", lambda: m.Blog(BasicDecoder(eval("Page[Post]", m.__dict__)).decode(BasicEncoder(eval("Page[Post]", m.__dict__)).encode(blog.posts)), blog.drafts))]
+        rng.shuffle(routes)
+        for name, fn in routes:
+            rec.evaluation()
+            try:
+                back = fn()
+            except Exception as e:
+                rec.violation(f"nested-specialisations:{name}:{type(e).__name__}", dict(ctx, error=f"{type(e).__name__}: {e}"[:300], cause=repr(e.__context__)[:200]), dict(facts, exc=type(e).__name__))
+                continue
+            if back == blog and type(back.posts.items[0].tags.items[0]) is m.Tag and type(back.posts.items[0].more.items[0]) is datetime.date:
+                rec.count("nested_specialisations_ok")
+                rec.nontrivial(("nested-specialisations", name, gmix, pmix, bool(lazy)))
+            else:
+                rec.violation(f"nested-specialisations:{name}:wrong-value", dict(ctx, observed=common.short(back, 400)), facts)
+        walk_new_functions(rec, st, dict(ctx, kind="nested-specialisations"))
+    finally:
+        fam.dispose()
 
 
 def foreign_default_case(rng, tier, rec, st):
